@@ -36,6 +36,9 @@ def handle (allToks : List String) : String :=
   | none =>
   match handleJwt toks tbl with
   | some r => r
+  | none =>
+  match handleJweEnc toks tbl with
+  | some r => r
   | none => "bad-op"
 
 partial def loop (hin hout : IO.FS.Stream) : IO Unit := do
